@@ -10,7 +10,7 @@ export CCACHE_BASEDIR=/
 WT=${CONFIRM_WT:-/tmp/confirm_wt}
 OUT=$HERE/seeded/_confirm
 mkdir -p "$OUT"
-IDS=${@:-$(ls "$HERE/seeded" | grep -E '^C[0-9]+[ABC]$')}
+IDS=${@:-$(ls "$HERE/seeded" | grep -E '^C[0-9]+[A-Z]$')}
 cleanup() { git -C /repo worktree remove --force "$WT" 2>/dev/null; rm -rf "$WT"; }
 trap cleanup EXIT
 cleanup
